@@ -150,6 +150,14 @@ def _build(rows_spec, case):
         recs.append((chrom, s, e, "G", float(v), 10, 1.0, cls))
     order = {"1": 0, "X": 1, "Y": 2}
     idx = sorted(range(len(recs)), key=lambda i: (order[recs[i][0].replace("chr", "")], recs[i][1], recs[i][2]))
+    from vk import gen
+
+    # the calls are a per-row function: half of the cases hand the rows over interleaved, reversed, shuffled or with a
+    # few autosomal rows stacked at the end (seeded change C01j wrote per-chromosome results into consecutive slices)
+    # - not with the cn filter, which merges *adjacent* rows and so presupposes genomic order
+    if not case.get("filter_cn"):
+        perm = gen.row_order(case, [recs[i][0] for i in idx])
+        idx = [idx[j] for j in perm]
     recs = [recs[i] for i in idx]
     df = pd.DataFrame.from_records([r[:7] for r in recs],
                                    columns=["chromosome", "start", "end", "gene", "log2", "probes", "weight"])
